@@ -202,11 +202,25 @@ func eq(this, that []types.Type) bool {
 		return false
 	}
 	for i, t := range this {
-		if !types.AssignableTo(types.Default(t), types.Default(that[i])) {
+		if !sameFunctionServes(types.Default(t), types.Default(that[i])) {
 			return false
 		}
 	}
 	return true
+}
+
+// sameFunctionServes returns whether a function generated for a parameter of type that can be called with an argument of type this,
+// where the type also shows up in the types of the other parameters and the results:
+// the types are identical, or a named and an unnamed type with the same underlying type.
+// A type that merely implements an interface is not served by the function generated for the interface type.
+func sameFunctionServes(this, that types.Type) bool {
+	if types.Identical(this, that) {
+		return true
+	}
+	if _, isInterface := that.Underlying().(*types.Interface); isInterface {
+		return false
+	}
+	return types.AssignableTo(this, that)
 }
 
 func (tm *typesMap) nameOf(typs []types.Type) (string, bool) {
